@@ -461,6 +461,13 @@ func (g *fsmGen) entries(n int, idx *uint64) []gEntry {
 	var es []gEntry
 	for i := 0; i < n; i++ {
 		*idx += uint64(1 + g.r.Intn(2))
+		if i > 0 && g.r.Intn(7) == 0 {
+			// a retried proposal: the previous command once more, byte for byte (its result is that of a second
+			// execution - previous value = what the first copy wrote, nothing left to delete)
+			es = append(es, gEntry{Idx: *idx, Cmd: es[len(es)-1].Cmd})
+			g.hist.Inc("command repeated verbatim")
+			continue
+		}
 		c := g.cmd(0)
 		if g.leader && g.r.Intn(3) != 0 {
 			g.nextL += uint64(1 + g.r.Intn(3))
